@@ -30,13 +30,91 @@ def _field(e):
 
 
 def rule_unlink(prog, rep, unit, rid='DL1'):
-    rep.rule(rid, 'unlink protocol of the doubly linked chain: on every path to the count decrement each side is tested, an end '
+    rep.rule(rid, 'unlink protocol of the doubly linked chain: on every path through the unlinking code each side is tested, an end '
                   'pointer is re-assigned where the node is at that end and the neighbour is re-linked where it is not')
     prog.unit(unit)
     found = 0
     for f in sorted(prog.funcs_in(unit), key=lambda x: x.line or 0):
         if f.body is None:
             continue
+        names = {x.get('id'): x.get('name') for x in walk(f.decl) if x.get('kind') in ('VarDecl', 'ParmVarDecl')}
+        # locals that always hold node->prev / node->next
+        defs = {}
+        ppdefs = {}
+        for n in f.cfg.nodes:
+            for (vid, rhs, kind, _l) in node_defs(n):
+                nm = names.get(vid)
+                if nm is None:
+                    continue
+                if rhs is None:
+                    if kind != 'uninit':
+                        defs.setdefault(nm, set()).add('?')
+                    continue
+                fld, _b = _field(rhs)
+                defs.setdefault(nm, set()).add(fld if fld in OPP else '?')
+                ppdefs.setdefault(nm, []).append(rhs)
+        linkvar = {nm: next(iter(s_)) for nm, s_ in defs.items() if len(s_) == 1 and next(iter(s_)) in OPP}
+
+        def link_of(path):
+            if not path:
+                return None
+            if path in linkvar:
+                return linkvar[path]
+            for k in OPP:
+                if path.endswith('->' + k) or path.endswith('.' + k):
+                    return k
+            return None
+
+        # pointer-to-pointer link slots:  T **slot = (K != NULL) ? &K->opp : &C->E;   *slot = v  handles both cases of side E
+        ppvar = {}
+        for nm, rs in ppdefs.items():
+            if len(rs) != 1:
+                continue
+            r = strip(rs[0])
+            if r.get('kind') != 'ConditionalOperator':
+                continue
+            c, a, b = children(r)
+            t = cond_null_test(c)
+            k = link_of(t[0]) if t else None
+            if not k:
+                continue
+            arm_nn, arm_null = (b, a) if t[1] else (a, b)
+
+            def addr_field(e):
+                e = strip(e)
+                if e.get('kind') == 'UnaryOperator' and e.get('opcode') == '&':
+                    return _field(children(e)[0])
+                return (None, None)
+            f1, b1 = addr_field(arm_nn)
+            f2, _b2 = addr_field(arm_null)
+            if f1 == OPP[k] and link_of(access_path(b1)) == k and (f2, k) in PAIRS:
+                ppvar[nm] = f2
+
+        def is_linkish(e):
+            e = strip(e)
+            if e.get('kind') == 'DeclRefExpr':
+                return (e.get('referencedDecl') or {}).get('name') in linkvar
+            fld, _b = _field(e)
+            return fld in OPP
+
+        # does this function unlink?  an end field or a neighbour's link receives a value taken from a node's own links
+        unlinking = False
+        for n in f.cfg.nodes:
+            for ev in node_events(n):
+                if ev[0] != 'assign':
+                    continue
+                lhs, rhs = ev[1], ev[2]
+                l = strip_parens(lhs)
+                if l.get('kind') == 'UnaryOperator' and l.get('opcode') == '*' and canon(children(l)[0]) in ppvar and is_linkish(rhs):
+                    unlinking = True
+                fld, base = _field(lhs)
+                if fld in ('first', 'last') and is_linkish(rhs):
+                    unlinking = True
+                if fld in OPP and base is not None and is_linkish(base) and is_linkish(rhs):
+                    unlinking = True
+        if not unlinking:
+            continue
+        found += 1
         dec_nodes = []
         for n in f.cfg.nodes:
             for ev in node_events(n):
@@ -49,39 +127,12 @@ def rule_unlink(prog, rep, unit, rid='DL1'):
                 if (x.get('kind') == 'UnaryOperator' and x.get('opcode') == '--') or \
                         (x.get('kind') == 'CompoundAssignOperator' and x.get('opcode') == '-=' and int_value(children(x)[1]) == 1):
                     dec_nodes.append(n)
-        if not dec_nodes:
-            continue
-        # does this function touch the chain at all? (a helper that only adjusts the counter is not the unlink function)
-        touches = any(_field(ev[1])[0] in ('first', 'last', 'prev', 'next') for n in f.cfg.nodes for ev in node_events(n)
-                      if ev[0] == 'assign')
-        if not touches:
-            continue
-        found += 1
-        # locals that always hold node->prev / node->next
-        names = {x.get('id'): x.get('name') for x in walk(f.decl) if x.get('kind') in ('VarDecl', 'ParmVarDecl')}
-        defs = {}
-        for n in f.cfg.nodes:
-            for (vid, rhs, kind, _l) in node_defs(n):
-                nm = names.get(vid)
-                if nm is None:
-                    continue
-                if rhs is None:
-                    if kind != 'uninit':
-                        defs.setdefault(nm, set()).add('?')
-                    continue
-                fld, _b = _field(rhs)
-                defs.setdefault(nm, set()).add(fld if fld in OPP else '?')
-        linkvar = {nm: next(iter(s)) for nm, s in defs.items() if len(s) == 1 and next(iter(s)) in OPP}
-
-        def link_of(path):
-            if not path:
-                return None
-            if path in linkvar:
-                return linkvar[path]
-            for k in OPP:
-                if path.endswith('->' + k) or path.endswith('.' + k):
-                    return k
-            return None
+        # check points: the count decrement when the function has one, otherwise (a helper that only unlinks) its returns
+        check_nodes = dec_nodes or [r for r in f.cfg.returns()] or []
+        fall = [p for (p, _l) in f.cfg.exit.preds] if not dec_nodes else []
+        for p in fall:
+            if p not in check_nodes:
+                check_nodes.append(p)
 
         def end_test(c):
             c = strip_parens(c)
@@ -127,6 +178,10 @@ def rule_unlink(prog, rep, unit, rid='DL1'):
             for ev in node_events(n):
                 if ev[0] != 'assign':
                     continue
+                l = strip_parens(ev[1])
+                if l.get('kind') == 'UnaryOperator' and l.get('opcode') == '*' and canon(children(l)[0]) in ppvar:
+                    s.add(('both', ppvar[canon(children(l)[0])]))
+                    continue
                 fld, base = _field(ev[1])
                 if fld in ('first', 'last'):
                     s.add(('store', fld))
@@ -139,11 +194,19 @@ def rule_unlink(prog, rep, unit, rid='DL1'):
         states, truncated = propagate(f, frozenset(), transfer, branch)
         if truncated:
             raise AnalysisBroken('%s: state space truncated in the unlink analysis' % f.name)
-        for dn in dec_nodes:
+        for dn in check_nodes:
+            sts = states.get(dn.id, ())
+            if not dec_nodes:
+                # helper exits: the exit state is the state after the node
+                sts = {transfer(dn, st) for st in sts}
+                if isinstance(dn.ast, dict) and dn.ast.get('kind') == 'ReturnStmt' and children(dn.ast) and int_value(children(dn.ast)[0]) == 0:
+                    continue        # `return false`: a refusal, nothing was unlinked
             rep.instance(rid)
             problems = []
-            for st in states.get(dn.id, ()):
+            for st in sts:
                 for (E, K) in PAIRS:
+                    if ('both', E) in st:
+                        continue
                     at_end = ('null', K) in st or ('isend', E) in st
                     inner = ('nn', K) in st or ('notend', E) in st
                     if at_end and ('store', E) not in st:
@@ -151,13 +214,13 @@ def rule_unlink(prog, rep, unit, rid='DL1'):
                     elif inner and ('relink', K) not in st:
                         problems.append('on the path where the node has a %s neighbour that neighbour\'s `%s` link is not re-assigned' % (K, OPP[K]))
                     elif not at_end and not inner:
-                        problems.append('the %s side is neither tested nor known on a path to the decrement' % E)
+                        problems.append('the `%s` side is neither tested nor known on a path through the unlinking code' % E)
             problems = sorted(set(problems))
-            rep.oblige(rid, not problems, {'function': f.name, 'line': dn.line, 'paths': len(states.get(dn.id, ()))})
-            for p in problems:
-                rep.violation(rid, f, dn.line, 'unlink:%s' % p.split('`')[1] if '`' in p else 'unlink', p)
+            rep.oblige(rid, not problems, {'function': f.name, 'line': dn.line, 'paths': len(sts)})
+            for p_ in problems:
+                rep.violation(rid, f, dn.line, 'unlink:%s' % (p_.split('`')[1] if '`' in p_ else 'side'), p_)
     if found == 0:
-        raise AnalysisBroken('%s: no function that unlinks a node and decrements the count was found' % unit)
+        raise AnalysisBroken('%s: no function that unlinks a node from the doubly linked chain was found' % unit)
 
 
 def rule_matcher(prog, rep, unit='src/containers/qlisttbl.c', rid='L6'):
